@@ -88,9 +88,11 @@ def natDigitsAux : Nat → Nat → Str → Str
 
 def natDigits (n : Nat) : Str := natDigitsAux (n + 1) n []
 
+def fracChars (frac : List (Fin 10)) : Str := frac.map (fun d => digitChar d.val)
+
 def NumLit.render : NumLit → Str
   | .int n => natDigits n
-  | .dec ip frac => natDigits ip ++ '.' :: frac.map (fun d => digitChar d.val)
+  | .dec ip frac => natDigits ip ++ '.' :: fracChars frac
 
 def PName.render : PName → Str
   | .e => cs!"e"
@@ -160,8 +162,12 @@ def Spec.opt : Spec → Opt
 /-! ## Documented meaning -/
 
 /-- `x{n}` stands for `n` times `x` -/
-def expandRuns (rs : List Run) : Str :=
-  rs.flatMap (fun r => match r.rep with | none => [r.c] | some n => List.replicate n r.c)
+def Run.expand (r : Run) : Str :=
+  match r.rep with
+  | none => [r.c]
+  | some n => List.replicate n r.c
+
+def expandRuns (rs : List Run) : Str := rs.flatMap Run.expand
 
 def fracVal (frac : List (Fin 10)) : Nat := frac.foldl (fun a d => a * 10 + d.val) 0
 
@@ -358,5 +364,64 @@ def meaning (s : Spec) (g : Globals) : Except Kind (List AdapterDesc) :=
     else
       let base := (Base.ofGlobals g).override (paramSem fparams)
       mapMK (fun r => meaningBody o (r.body.anchor anchor) base (headerName r.header)) records
+
+/-! ## Well-formedness: the lexical side conditions of the notation
+
+Sequences are written with IUPAC letters (either case, `U`, `I`), are not empty after expansion and do not begin or end with
+`X` (which would change the restriction); names are made of letters, digits, `_`, `-`; repeat counts are at most 10000;
+`e`/`o` parameters carry a number (`o` an integer), flags carry none.  Linked parts do not use `anywhere`; file-level
+parameters are `e`/`o`/`indels`/`noindels` (for both, the implementation raises an uncaught `TypeError`, see
+`Cutadapt.C18.linked_anywhere_crashes`, `Cutadapt.C18.file_level_flag_crashes`); with `^file:`/`file$:` the records carry no own
+name/restriction at the anchored end and, for `file$:`, no parameters on the last part (the `$` is appended to the text). -/
+
+def seqChars : Str := cs!"ABCDGHKMNRSTUVWXYIabcdghkmnrstuvwxyi"
+def nameChars : Str := cs!"ABCDEFGHIJKLMNOPQRSTUVWXYZabcdefghijklmnopqrstuvwxyz0123456789_-"
+
+def NumLit.WF : NumLit → Prop
+  | .int _ => True
+  | .dec _ frac => frac ≠ []
+
+def Param.WF (p : Param) : Prop :=
+  match p.name with
+  | .e | .maxErrors | .maxErrorRate => ∃ l, p.value = some l ∧ l.WF
+  | .o | .minOverlap => ∃ n, p.value = some (.int n)
+  | _ => p.value = none
+
+def Run.WF (r : Run) : Prop := r.c ∈ seqChars ∧ ∀ n, r.rep = some n → n ≤ 10000
+
+def edgeOK (sq : Str) : Prop :=
+  sq ≠ [] ∧ (∀ c, sq.head? = some c → isX c = false) ∧ (∀ c, sq.getLast? = some c → isX c = false)
+
+def Part.WF (p : Part) : Prop :=
+  (∀ n, p.name = some n → ∀ c ∈ n, c ∈ nameChars) ∧ (∀ r ∈ p.runs, r.WF) ∧ (∀ q ∈ p.params, q.WF) ∧ edgeOK (expandRuns p.runs)
+
+def Part.noAnywhere (p : Part) : Prop := ∀ q ∈ p.params, q.name ≠ .anywhere
+
+def Body.WF : Body → Prop
+  | .single p => p.WF
+  | .linked f b => f.WF ∧ b.WF ∧ f.noAnywhere ∧ b.noAnywhere
+
+def Body.first : Body → Part
+  | .single p => p
+  | .linked f _ => f
+def Body.last : Body → Part
+  | .single p => p
+  | .linked _ b => b
+
+def fileParamName (n : PName) : Prop :=
+  n = .e ∨ n = .maxErrors ∨ n = .maxErrorRate ∨ n = .o ∨ n = .minOverlap ∨ n = .indels ∨ n = .noindels
+
+def Record.WF (a : FileAnchor) (r : Record) : Prop :=
+  r.body.WF ∧ isAscii r.header = true ∧
+  (a = .caret → r.body.first.name = none ∧ r.body.first.restr = .none) ∧
+  (a = .dollar → r.body.last.restr = .none ∧ r.body.last.params = [])
+
+def Spec.WF : Spec → Prop
+  | .plain _ b => b.WF
+  | .file _ a path fparams records =>
+    (∀ c ∈ path, c ≠ ';' ∧ c.toNat < 128) ∧ (∀ q ∈ fparams, q.WF ∧ fileParamName q.name) ∧ (∀ r ∈ records, r.WF a)
+
+/-- `-O` is an integer -/
+def GlobalsOK (g : Globals) : Prop := g.minOverlap.isFloat = false
 
 end Cutadapt.Notation
